@@ -174,6 +174,15 @@ theorem C33_response (cfg : Cfg) (respLen : Nat) (tf : String → Bool)
   all_goals omega
 example : "SendToAddress" ∈ (respondWithT ⟨512, 1024, 1024⟩ 1024 (fun _ => false)).effects := by decide
 
+/-- The broken shape (seeded C33-e): if the size guard is skipped for some queries (there: names starting
+with `_serf_`), i.e. those queries run the body WITHOUT the guard step, an answer above the limit goes out —
+595 bytes with a limit of 300.  This is why the extractor refuses a check that is not applied
+unconditionally, and why `C33_response` quantifies over every query (the model has no name to look at). -/
+theorem C33_response_skipped_guard_counterexample :
+    "SendToAddress" ∈ (run (rEnv ⟨512, 1024, 300⟩ 595) (fun _ => false)
+        (respondWithMessageAndResponse.filter (fun s => match s with | .guard _ _ => false | _ => true)) []).effects
+    ∧ ¬ (595 ≤ (300 : Nat)) := by decide
+
 /-- the relay (of the same response) happens after the direct send, never without it -/
 theorem C33_response_relay_after_direct (cfg : Cfg) (respLen : Nat) (tf : String → Bool) :
     (respondWithT cfg respLen tf).effects = [] ∨ (respondWithT cfg respLen tf).effects = ["SendToAddress", "relayResponse"] := by
